@@ -207,6 +207,8 @@ def run(tier, seed):
             nev += 1
             if st == "failed":
                 fails.append(dict(case=dict(order=args[0], m=args[1], rb_given=args[2], ic=args[3]), item=lab, detail=det))
+            elif st == "undecided":
+                run.undecided.append("bounded e2e %s %s: %s" % (args, lab, det))
     run.bounded.append(dict(name="real SolveUnc (uncoupled path) on a symbolic 3-mode system [rigid, elastic, residual-flexibility], nt=3: initial "
                                  "conditions, step relation with get_su_coef's coefficients, equation of motion, static rf rows",
                             scope="order x m in {vector, None, diagonal matrix} x rb given/auto x ic in {zero, d0/v0, static_ic}; symbolic values",
